@@ -802,10 +802,12 @@ func (s *Server) readPQClientRequestHidden(hs *HandshakeState, b []byte) (int, e
 		rawLeaf, rawIntermediate, remoteEphemeralBytes []byte
 		c                                              *Certificate
 	)
-	bufCopy := make([]byte, len(b))
+	scratch := make([]byte, len(b))
+	var bufCopy []byte
 
 	for _, cert := range certList {
 		// Copy buffer for processing
+		bufCopy = scratch
 		copy(bufCopy, b)
 
 		// Recreate duplex at each VM loop
